@@ -31,7 +31,7 @@ ASSUMPTIONS = ["TLS clients complete the handshake before falling silent (connec
 PROBES = ["silent_closed", "trickle_survived", "burst_then_idle", "app_never_finishes", "persistent_kept", "tls_case", "bare_server",
           "slow_download_completed"]
 BOUNDS = dict(quick=dict(clients=3, cycles=450), thorough=dict(clients=3, cycles=450))
-TIERS = dict(quick=dict(cases=8000, wall=50.0), thorough=dict(cases=700000, wall=420.0))
+TIERS = dict(quick=dict(cases=20000, wall=60.0), thorough=dict(cases=700000, wall=420.0))
 
 REQ10 = b"GET /idle HTTP/1.0\r\nHost: x\r\nAccept: */*\r\n\r\n"
 REQ11 = b"GET /done HTTP/1.1\r\nHost: x\r\n\r\n"
